@@ -79,6 +79,15 @@ def _specs():
     for op in ("sum", "prod"):
         for a, b in itertools.product(BASIS, BASIS):
             out.append(([op, [a], [b]], op, not (a == "const" and b == "const"), True, ["fast", "autograd"]))
+    # every expression tree with three leaves (both associations) and the balanced four-leaf trees over {+, *}: the operators flatten
+    # nested sums / products into one AdditiveKernel / ProductKernel, so the association decides which operands are merged
+    a, b, c, d = ["rbf"], ["linear"], ["matern1.5"], ["periodic"]
+    for o1, o2 in itertools.product(("sum", "prod"), repeat=2):
+        out.append(([o1, a, [o2, b, c]], "nested", True, True, ["fast"]))
+        out.append(([o1, [o2, a, b], c], "nested", True, True, ["fast"]))
+        out.append(([o1, ["scale", [o2, a, b]], c], "nested", True, True, ["fast"]))
+    for o1, o2, o3 in itertools.product(("sum", "prod"), repeat=3):
+        out.append(([o1, [o2, a, b], [o3, c, d]], "nested", True, True, ["fast"]))
     for base in STRUCT_BASES:
         out.append((["addstruct", [base]], "addstruct", True, True, ["fast", "autograd"]))
         out.append((["prodstruct", [base]], "prodstruct", True, True, ["fast", "autograd"]))
